@@ -7,24 +7,22 @@ package rpc
 import (
 	"context"
 
-	"connectrpc.com/connect"
-
-	"github.com/yorkie-team/yorkie/api/converter"
 	"github.com/yorkie-team/yorkie/api/types"
-	api "github.com/yorkie-team/yorkie/api/yorkie/v1"
+	"github.com/yorkie-team/yorkie/cluster"
 	"github.com/yorkie-team/yorkie/internal/zzvsym"
 	"github.com/yorkie-team/yorkie/pkg/document"
 	"github.com/yorkie-team/yorkie/pkg/key"
 	"github.com/yorkie-team/yorkie/server/backend/database"
+	"github.com/yorkie-team/yorkie/server/clients"
 	"github.com/yorkie-team/yorkie/server/documents"
 )
 
 // VerifS2RetryAndLifecycle: through the real server code,
 //   - a request whose response is lost and which is sent again, possibly
 //     extended by a new change, stores every change exactly once (C05);
-//   - a client that detaches itself, or is detached by the server on
-//     deactivation (the cluster DetachDocument handler followed by
-//     DeactivateClient, as clients.Deactivate does), leaves no version
+//   - a client that detaches itself, or is deactivated (clients.Deactivate:
+//     the cluster DetachDocument handler for every attached document, reached
+//     through a loopback cluster client, then DeactivateClient), leaves no version
 //     vector row, is no longer counted as attached, and no longer holds back
 //     the other client's garbage collection (C11).
 func VerifS2RetryAndLifecycle() {
@@ -59,23 +57,33 @@ func VerifS2RetryAndLifecycle() {
 	documents.VerifCheckLog(ctx, be, a.RefKey()) // client sequence numbers grow per author: no change stored twice
 	document.VerifCheckClone(a.Doc(), "after-resend")
 
-	// --- C11: B leaves
+	// --- C11: B leaves; its client may hold a second document, attached or removed by itself
 	docID := a.RefKey().DocID
 	how := zzvsym.IntRange("bLeavesBy", 0, 1)
+	second := 0
+	if how == 1 {
+		second = zzvsym.IntRange("bSecondDoc", 0, 3) // none, attached, removed by B, removed by A while B holds it
+	}
+	var b2 *documents.VerifPeer
+	if second > 0 {
+		b2 = documents.VerifAttachAnother(ctx, b, key.Key("s2-doc2"))
+		if second == 2 {
+			b2.Remove(ctx)
+		}
+		if second == 3 {
+			a2 := documents.VerifAttachAnother(ctx, a, key.Key("s2-doc2"))
+			a2.Remove(ctx)
+		}
+	}
 	if how == 0 {
 		b.Detach(ctx)
 	} else {
-		actor, err := b.Info().ID.ToActorID()
-		zzvsym.Assert(err == nil, "client-id-is-an-actor-id")
-		srv := newClusterServer(be)
-		_, err = srv.DetachDocument(ctx, connect.NewRequest(&api.ClusterServiceDetachDocumentRequest{
-			Project:     converter.ToProject(project),
-			ClientId:    actor.String(),
-			DocumentId:  docID.String(),
-			DocumentKey: docKey.String(),
-		}))
-		zzvsym.Assert(err == nil, "server-driven-detach-no-error")
-		_, err = be.DB.DeactivateClient(ctx, b.Info().RefKey())
+		// clients.Deactivate itself: it asks the document's node (here: this
+		// node, through a loopback cluster client) to detach every attached
+		// document and then deactivates the client
+		be.Config.GatewayAddr = "self"
+		be.ClusterClientPool = cluster.VerifLoopbackPool("self", newClusterServer(be))
+		_, err := clients.Deactivate(ctx, be, project, b.Info().RefKey())
 		zzvsym.Assert(err == nil, "deactivate-no-error")
 	}
 	zzvsym.Reach("b-left")
@@ -83,6 +91,11 @@ func VerifS2RetryAndLifecycle() {
 	zzvsym.Assert(bInfo != nil && bInfo.Documents[docID] != nil && bInfo.Documents[docID].Status == database.DocumentDetached, "left-client-document-is-detached")
 	if how == 1 {
 		zzvsym.Assert(bInfo.Status == database.ClientDeactivated, "deactivated-client-is-deactivated")
+		if second > 0 {
+			st := bInfo.Documents[b2.RefKey().DocID]
+			zzvsym.Assert(st != nil && st.Status == map[int]string{1: database.DocumentDetached, 2: database.DocumentRemoved, 3: database.DocumentDetached}[second], "second-document-detached-or-still-removed")
+			zzvsym.Assert(len(db.VerifVersionVectors(string(b2.RefKey().DocID))) == 0, "second-document-has-no-version-vector-rows")
+		}
 	}
 	for _, row := range db.VerifVersionVectors(docID.String()) {
 		zzvsym.Assert(row.ClientID != b.Info().ID, "left-client-has-no-version-vector-row")
